@@ -203,6 +203,7 @@ m('C14', M, 'if me.switchingDelay == 0 || f == nil || f.status == unavailable {'
 m('C17', B, '\t\t\tApiConfig: proto.Clone(cfg.ApiConfig).(*pb.ApiConfig),', '\t\t\tApiConfig: &pb.ApiConfig{ChannelPool: proto.Clone(cfg.GetChannelPool()).(*pb.ChannelPoolConfig), Method: cfg.GetMethod()},', 'only the channel-pool section is copied: method entries alias the caller (seed C17-1)')
 m('C17', B, '\t\t\tApiConfig: proto.Clone(cfg.ApiConfig).(*pb.ApiConfig),', '\t\t\tApiConfig: &pb.ApiConfig{ChannelPool: proto.Clone(cfg.GetChannelPool()).(*pb.ChannelPoolConfig), Method: proto.Clone(cfg.ApiConfig).(*pb.ApiConfig).GetMethod()},', 'hand-built copy from clones only', 'silent')
 m('C16', G, '\t// Add missing pools.\n\tfor e := range validPools {\n\t\tif _, ok := gme.pools[e]; !ok {\n\t\t\t// This creates a ClientConn with the gRPC-GCP balancer managing connection pool.\n\t\t\tconn, err := gme.dialFunc(context.Background(), e, gme.opts...)\n\t\t\tif err != nil {\n\t\t\t\treturn err\n\t\t\t}\n\t\t\tif gme.log.V(FINE) {\n\t\t\t\tgme.log.Infof("created new channel pool for %q endpoint.", e)\n\t\t\t}\n\t\t\tgme.pools[e] = newMonitoredConn(e, conn, gme)\n\t\t}\n\t}\n', '\t// Add missing pools.\n\tfresh := map[string]*monitoredConn{}\n\tfor e := range validPools {\n\t\tif _, ok := gme.pools[e]; !ok {\n\t\t\t// This creates a ClientConn with the gRPC-GCP balancer managing connection pool.\n\t\t\tconn, err := gme.dialFunc(context.Background(), e, gme.opts...)\n\t\t\tif err != nil {\n\t\t\t\treturn err\n\t\t\t}\n\t\t\tif gme.log.V(FINE) {\n\t\t\t\tgme.log.Infof("created new channel pool for %q endpoint.", e)\n\t\t\t}\n\t\t\tfresh[e] = newMonitoredConn(e, conn, gme)\n\t\t}\n\t}\n\tfor e, mc := range fresh {\n\t\tgme.pools[e] = mc\n\t}\n', 'dialed pools registered nowhere until every dial has succeeded (seed C16-1)')
+m('C19', CS, '\tif err != nil {\n\t\treturn bytes, err\n\t}\n\tcrc32c', '\tif err != nil || len(bytes) == 0 {\n\t\treturn bytes, err\n\t}\n\tcrc32c', 'empty encodings are returned without the checksum field (seed C19-1)')
 
 json.dump(T, open('/verif/checker/mutants.json', 'w'), indent=0)
 print(len(T), 'mutants')
